@@ -28,7 +28,7 @@ def corpus_specs(pid: str):
     return out
 
 
-def evaluate(mode: str, items, extra_fn=None, shards: int = 8):
+def evaluate(mode: str, items, extra_fn=None, shards: int = 8, impl_fn=None):
     """items: list of (name, spec). Returns list of dict(name, spec, built, result)."""
     cases = []
     recs = []
@@ -37,12 +37,16 @@ def evaluate(mode: str, items, extra_fn=None, shards: int = 8):
         try:
             doc = rt.build(spec)
             sx = rt.dump_doc(doc)
-            ok, out = rt.run_impl(doc)
+            if impl_fn is not None:
+                ok, out, impl_sx = impl_fn(spec, doc)
+            else:
+                ok, out = rt.run_impl(doc)
+                impl_sx = rt.sx_impl(ok, out)
             rec["impl_ok"] = ok
             rec["impl_out"] = out if not ok else None
             extra = extra_fn(spec, doc, ok, out) if extra_fn else ""
             rec["case_index"] = len(cases)
-            cases.append(rt.case_text(mode, name, sx, rt.sx_impl(ok, out), extra))
+            cases.append(rt.case_text(mode, name, sx, impl_sx, extra))
         except Exception as e:  # noqa: BLE001
             rec["built"] = False
             rec["error"] = f"{type(e).__name__}: {e}"[:300]
@@ -71,7 +75,7 @@ def classify(rec):
 
 
 def run_docprop(ctx, mode, generate, signature=None, nontrivial=None, extra_fn=None, n_quick=150, n_thorough=1500,
-                shrink_steps=150):
+                shrink_steps=150, impl_fn=None):
     """generate(g: gen.DocGen, i) -> spec.  Returns dict(failures, coverage)."""
     pid = ctx["pid"]
     tier = ctx["tier"]
@@ -93,7 +97,7 @@ def run_docprop(ctx, mode, generate, signature=None, nontrivial=None, extra_fn=N
     B = 250
     for lo in range(0, len(items), B):
         batch = items[lo:lo + B]
-        recs = evaluate(mode, batch, extra_fn)
+        recs = evaluate(mode, batch, extra_fn, impl_fn=impl_fn)
         for rec in recs:
             cls = classify(rec)
             stats[cls] += 1
@@ -116,7 +120,7 @@ def run_docprop(ctx, mode, generate, signature=None, nontrivial=None, extra_fn=N
             if cls in ("holds", "corr", "build", "harness"):
                 if len([f for f in failures if f["kind"] == cls]) >= 3:
                     continue
-                failures.append(make_failure(ctx, mode, rec, cls, signature, extra_fn, shrink_steps))
+                failures.append(make_failure(ctx, mode, rec, cls, signature, extra_fn, shrink_steps, impl_fn))
     coverage = {
         "evaluations": sum(stats.values()),
         "distinct_nontrivial": len(distinct),
@@ -135,12 +139,12 @@ def abbreviate(spec, limit=900):
     return json.loads(s) if len(s) <= limit else {"abbreviated": s[:limit] + "..."}
 
 
-def make_failure(ctx, mode, rec, cls, signature, extra_fn, shrink_steps):
+def make_failure(ctx, mode, rec, cls, signature, extra_fn, shrink_steps, impl_fn=None):
     spec = rec["spec"]
     clause = (rec.get("result") or {}).get("clause")
 
     def still(sp):
-        r = evaluate(mode, [("s", sp)], extra_fn, shards=1)[0]
+        r = evaluate(mode, [("s", sp)], extra_fn, shards=1, impl_fn=impl_fn)[0]
         c = classify(r)
         if c != cls:
             return False
@@ -154,7 +158,7 @@ def make_failure(ctx, mode, rec, cls, signature, extra_fn, shrink_steps):
             small = shrinker.shrink(copy.deepcopy(spec), still, max_steps=shrink_steps)
         except Exception:  # noqa: BLE001
             small = spec
-    final = evaluate(mode, [("final", small)], extra_fn, shards=1)[0]
+    final = evaluate(mode, [("final", small)], extra_fn, shards=1, impl_fn=impl_fn)[0]
     f = {
         "kind": cls,
         "name": cls,
